@@ -1,6 +1,8 @@
 """C05 - rounding contracts: direction, error bound, idempotence, monotonicity."""
 from . import pipeline, carriers
 
+from . import routes, fresh, flags, sizes, conv, dtype, carriers, funcs, ops, strings, pipeline, widths
+
 EXPLANATION = (
     "R1 direction table: each configured mode is mapped to a primitive of its own direction applied directly to the value "
     "(floor->np.floor, ceil->np.ceil, trunc/fix->np.trunc|np.fix, around->np.around|np.round|np.rint), known-wrong spellings such "
@@ -19,8 +21,9 @@ def run(ck):
     pipeline.store_pipeline(ck, "C05.R4", want_bounds=False)
     pipeline.factor_rule(ck, "C01.R3")
     carriers.threshold_everywhere(ck, "C18.R1")
-    from . import routes, fresh, flags
     routes.carrier_types(ck, "C01.R6")
     fresh.constructor_state(ck, "C20.R2")              # "stored unchanged with no flag": no inherited flags
     roles = flags.handler_roles_quiet(ck.prog)
     pipeline.overflow_dispatch(ck, "C02.R6", "C03.R2", roles)   # monotone under saturate: the clamp is a clamp
+    ops.conversions(ck, "C16.R2")                     # the value read back is code * 2^-n_frac for every n_frac (also negative)
+    flags.inaccuracy_guard(ck, "C04.R2")              # "stored unchanged with no flag": the comparison is on what was just stored
